@@ -89,6 +89,24 @@ EXP = dict(EXPORTERS)
 JSON_OPTS = {"json": {}, "json-indent-sorted": {"indent": 2, "sort_keys": True}}
 
 
+_DECOY = []
+
+
+def preamble():
+    """call history: another document is exported first, with options no judged call uses (so that anything an
+    export leaves behind in the process shows in the judged calls, in a replay too)"""
+    if not _DECOY:
+        d = ProvDocument()
+        d.add_namespace("ex", "http://a/")
+        d.entity("ex:decoy", {"ex:k": 1})
+        d.generation("ex:decoy", "ex:decoy-activity")
+        _DECOY.append(d)
+    d = _DECOY[0]
+    d.serialize(format="json", indent=3, sort_keys=True, ensure_ascii=False)
+    d.serialize(format="xml", force_types=True)
+    d.get_provn()
+
+
 def full_obs(doc):
     return (observe.dobs_ordered(doc), observe.nsobs(doc))
 
@@ -253,6 +271,7 @@ class C13(spec.Spec):
         return self.fresh(hist).doc
 
     def run_seq(self, hist, seq, out):
+        preamble()
         doc = self.fresh_doc(hist)
         base = full_obs(doc)
         hh = ("seq", list(hist) if hist and hist[0] == "rich" else self.ops(hist), list(seq))
